@@ -48,6 +48,7 @@ RULE = ('templates x argument alphabets (full product up to the stated deviation
         'in {ok, basic error code, exit, blocked}); non-trivial = every class')
 ASSUMPTIONS = [
     'internal seam: scripted input queue (closed after the horizon)',
+    'configuration api = Session() defaults plus devices={"Z": scratch mount}, so that file statements reach files',
     'os.environ, cwd and the scratch mount are restored/recreated per worker; SHELL/TERM have no program configured',
     'Session.execute of one direct line is the unit; program-mode variants are entered as line 10 and RUN',
 ]
@@ -92,7 +93,8 @@ class Env(object):
 
     def _files(self):
         for name, data in (('F.TXT', b'1,2,"x"\r\nline\r\n\x1a'), ('R.DAT', b'abcdefgh'),
-                           ('P.BAS', b'10 PRINT 1\r\n\x1a')):
+                           ('P.BAS', b'10 PRINT 1\r\n\x1a'), ('D.BAS', b'100\r\n\x1a'),
+                           ('E.BAS', b'100 RESUME NEXT\r\n25 PRINT 2\r\n\x1a')):
             with open(os.path.join(self.mount, name), 'wb') as f:
                 f.write(data)
 
@@ -115,8 +117,10 @@ class Env(object):
 
     def session(self, config, horizon=120):
         if config == 'api':
-            # documented defaults: no keyword arguments except the two stream arguments
-            s = H.new_session(horizon=horizon, at_horizon='close', peek_values=None)
+            # documented defaults, except that the scratch mount is given as drive Z: (with devices=None
+            # the current device is the unmounted @: and every file statement ends in Path not found)
+            os.chdir(self.mount)
+            s = H.new_session(horizon=horizon, at_horizon='close', peek_values=None, devices={'Z': self.mount})
         else:
             if self.cli_params is None:
                 from pcbasic import config as cfg
@@ -247,6 +251,38 @@ def work_history(shard):
             case = {'config': config, 'mode': 'direct', 'lines': [first, second]}
             _exec(part, env, config, [first, second], kw, case, program=BASE_PROGRAM)
         part.sample({'config': config, 'history': [pairs[0][0], pairs[0][1][1]]})
+    finally:
+        env.close()
+    return part
+
+
+EDIT_PROGRAM = [
+    b'10 ON ERROR GOTO 100:ON TIMER(1) GOSUB 100:ON KEY(2) GOSUB 100',
+    b'20 GOSUB 100:FOR I=1 TO 2:NEXT',
+    b'30 STOP',
+    b'40 END',
+    b'100 RETURN',
+]
+# statements that change the program text, the traps pointing into it, or the execution state
+EDIT_OPS = [
+    'RUN', 'CONT', 'MERGE "D.BAS"', 'MERGE "E.BAS"', 'RENUM', 'RENUM 1000,30,5', 'DELETE 100', '100', '100 RESUME NEXT',
+    'ON ERROR GOTO 100', 'TIMER ON', 'ERROR 5', 'RETURN', 'GOTO 100', 'LIST', 'CLEAR',
+    # thorough tier
+    'RUN 20', 'CHAIN MERGE "D.BAS",30', 'CHAIN MERGE "E.BAS",20,DELETE 100-100', 'EDIT 100', 'NEW', 'LOAD "E.BAS",R',
+    'SAVE "S.BAS",A', 'KEY(2) ON', 'RESUME NEXT', 'NEXT', 'DELETE 10-30', '20',
+]
+EDIT_QUICK = 16
+
+
+def work_edit(shard):
+    config, seqs = shard
+    part = Partial()
+    env = Env()
+    try:
+        for seq in seqs:
+            case = {'config': config, 'mode': 'edit', 'lines': list(seq)}
+            _exec(part, env, config, list(seq), 'EDIT:' + seq[-1].split(' ')[0], case, program=EDIT_PROGRAM)
+        part.sample({'config': config, 'sequence': list(seqs[0])})
     finally:
         env.close()
     return part
@@ -478,6 +514,20 @@ def legs(ctx):
                    exhaustive=True,
                    bound='%d state-changing statements x %d statements (benign arguments), 2 configurations' % (
                        len(firsts), len(benign))))
+    # program-editing histories
+    if q:
+        seqs = list(itertools.product(EDIT_OPS, repeat=3))
+        eshards = [('api', c) for c in chunked(seqs, 200)]
+    else:
+        seqs = list(itertools.product(EDIT_OPS, repeat=3))
+        eshards = [(config, c) for config in CONFIGS for c in chunked(seqs, 200)]
+        seqs4 = list(itertools.product(EDIT_OPS[:EDIT_QUICK], repeat=4))
+        eshards += [('api', c) for c in chunked(seqs4, 200)]
+    out.append(Leg('edit', eshards, work_edit, exhaustive=True,
+                   bound='all sequences of 3 statements over %d program-editing / trap / flow statements (MERGE and CHAIN MERGE of '
+                         'files that delete or replace the trap target, RENUM, DELETE, line entry, RUN, CONT, ERROR, RETURN, ...) on '
+                         'a stored program with ON ERROR / ON TIMER / ON KEY traps%s' % (
+                             len(EDIT_OPS), '' if q else ', 2 configurations; all sequences of 4 over the first %d' % EDIT_QUICK)))
     # files
     fshards = []
     sub = [0x00, 0x01, 0x0a, 0x0d, 0x0e, 0x0f, 0x1a, 0x1c, 0x1d, 0x1f, 0x20, 0x22, 0x26, 0x30, 0x3a, 0x41, 0x7f,
@@ -528,6 +578,8 @@ def replay(ctx, leg, case):
                 from pcbasic.basic.base import error
                 if not isinstance(e, error.Interrupt):
                     part.violation('host-exception/evaluate/%s' % H.exc_key(e), repr(e), case)
+        elif case.get('mode') == 'edit':
+            _exec(part, env, case['config'], case['lines'], 'replay', case, program=EDIT_PROGRAM)
         elif case.get('mode') == 'trap':
             _exec(part, env, case['config'], case['lines'], 'replay', case,
                   program=[l.encode('latin-1') for l in case['program']])
